@@ -43,10 +43,16 @@ var maxInstTotal = 6000
 func indexCandidates(order []*Term, srt *Sort) []*Term {
 	seen := map[int]bool{}
 	var out []*Term
-	add := func(t *Term) {
+	var add func(t *Term)
+	add = func(t *Term) {
 		if t.Sort == srt && !seen[t.id] {
 			seen[t.id] = true
 			out = append(out, t)
+			// an absolute index off+i also proposes the relative index i (and off)
+			if t.Op == "bvadd" {
+				add(t.Args[0])
+				add(t.Args[1])
+			}
 		}
 	}
 	for _, t := range order {
@@ -62,9 +68,39 @@ func indexCandidates(order []*Term, srt *Sort) []*Term {
 					add(a)
 				}
 			}
+			if strings.HasPrefix(t.Name, "param|") {
+				// arguments of pure function-typed parameters, widened to int
+				for _, a := range t.Args {
+					if a.Sort.Kind == SBV && a.Sort.W < 64 && srt == IntSort {
+						if a.Op == "extract" && a.Args[0].Sort == IntSort {
+							add(a.Args[0])
+						} else {
+							add(ZExt(a, 64))
+						}
+					} else {
+						add(a)
+					}
+				}
+			}
 		}
 	}
 	return out
+}
+
+// safeBody instantiates a lazily held quantified fact; an instance that cannot be built
+// (the body uses something the engine does not support at this term) is dropped, which only
+// weakens the hypotheses.
+func safeBody(lf *LazyForall, c *Term) (t *Term) {
+	defer func() {
+		if r := recover(); r != nil {
+			if _, ok := r.(unsupported); ok {
+				t = True
+				return
+			}
+			panic(r)
+		}
+	}()
+	return lf.Body(c)
 }
 
 func (P *Prog) buildQuery(o *Obligation) (asserts []*Term, stats string) {
@@ -83,24 +119,25 @@ func (P *Prog) buildQuery(o *Obligation) (asserts []*Term, stats string) {
 			var added []*Term
 			for li, lf := range o.Lazy {
 				cands := indexCandidates(order, lf.Sort)
+				if len(cands) > maxInstCandidates {
+					// prefer older (smaller) terms
+					sort.SliceStable(cands, func(i, j int) bool { return cands[i].id < cands[j].id })
+					cands = cands[:maxInstCandidates]
+				}
+				// the goal's own constants and explicit hints are always tried
 				for _, s := range o.Skolems {
 					if s.Sort == lf.Sort {
 						cands = append(cands, s)
 					}
 				}
 				cands = append(cands, lf.Uses...)
-				if len(cands) > maxInstCandidates {
-					// prefer small terms
-					sort.SliceStable(cands, func(i, j int) bool { return cands[i].id < cands[j].id })
-					cands = cands[:maxInstCandidates]
-				}
 				for _, c := range cands {
 					k := fmt.Sprintf("%d/%d", li, c.id)
 					if done[k] || total >= maxInstTotal {
 						continue
 					}
 					done[k] = true
-					inst := Implies(lf.Guard, lf.Body(c))
+					inst := Implies(lf.Guard, safeBody(lf, c))
 					if inst != True {
 						added = append(added, inst)
 						total++
@@ -353,7 +390,13 @@ func (P *Prog) discharge(obls []*Obligation, opt SolveOpts) {
 	// query construction touches the global term table: do it sequentially
 	var jobs []job
 	for _, o := range obls {
-		asserts, _ := P.buildQuery(o)
+		asserts, stats := P.buildQuery(o)
+		if os.Getenv("VERIF_DEBUG") != "" {
+			fmt.Fprintf(os.Stderr, "query %s: %s\n", o.Name, stats)
+			for _, l := range o.Lazy {
+				fmt.Fprintf(os.Stderr, "   lazy[%s]: %s\n", l.Sort, l.Desc)
+			}
+		}
 		jobs = append(jobs, job{o, Script(asserts, "", nil)})
 	}
 	for i, j := range jobs {
